@@ -431,7 +431,8 @@ class Interp:
                 return self.contracts[key](self, *args, **kwargs)
             return self.call(self.ifunc_from_real(fn), args, kwargs)
         if self.is_repo_class(fn):
-            if self._is_native(fn):
+            if self._is_native(fn) or issubclass(fn, (dict, list, tuple)):
+                # TypedDict / NamedTuple style classes: plain containers built by the real constructor
                 return self.call_real(fn, args, kwargs)
             return self.instantiate(fn, args, kwargs)
         if type(fn).__name__ == 'DUFunc' and hasattr(fn, '_dispatcher') and \
@@ -1773,6 +1774,15 @@ def m_linalg_norm(interp, A, ord=None, axis=None, **k):
     return lift(tot).to_real().sqrt()
 
 
+def m_np_array(interp, x, dtype=None, **k):
+    if contains_sym(x):
+        a = np.empty(np.shape(np.asarray(x, dtype=object)), dtype=object)
+        a[...] = np.asarray(x, dtype=object)
+        return a
+    return interp.call_real(np.array, [x], dict(dtype=dtype, **k) if dtype is not None else k)
+
+
+DEFAULT_MODELS[np.array] = m_np_array
 DEFAULT_MODELS[np.linalg.inv] = m_linalg_inv
 DEFAULT_MODELS[np.linalg.solve] = m_linalg_solve
 DEFAULT_MODELS[np.linalg.norm] = m_linalg_norm
